@@ -150,7 +150,13 @@ def run_case(case):
             res.emit("smt.dbsize 0", str(len(smt.db)))
 
     observe()
+    reopen = common.mk_rng(len(case["ops"]), case["default"], "reopen")
     for op in case["ops"]:
+        if reopen.random() < 0.3:
+            # continue through a handle re-opened with from_db over the same database and root: it must behave
+            # identically (seeded change C14-from-db-drops-default was invisible while only reads went through it)
+            smt = SparseMerkleTree.from_db(smt.db, smt.root_hash, key_size=ks, default=default)
+            res.tags.add("reopened-with-from_db")
         kind, k = op[0], bytes.fromhex(op[1])
         v = bytes.fromhex(op[2]) if len(op) > 2 else default
         try:
